@@ -319,7 +319,7 @@ fn map_history(ctx: &mut Ctx, rng: &mut Rng, log: &mut Vec<Value>) -> Result<(),
 }
 
 pub fn run(ctx: &mut Ctx) {
-    let total = ctx.size(200_000, 6_000_000);
+    let total = ctx.size(1_600_000, 8_000_000);
     for n in ctx.cases("histories", total) {
         let mut rng = ctx.begin("histories", n);
         ctx.eval();
